@@ -108,7 +108,7 @@ func genC08(e *emitter, tier string) {
 			if isApply {
 				v, tv = genConfig(e, multi, ver, st, nil, true)
 			} else {
-				v, tv = genUpdateObject(e, multi, ver, st, histOpts{degenerate: e.rng.Intn(2) == 0, noDups: true})
+				v, tv = genUpdateObject(e, multi, ver, st, histOpts{degenerate: e.rng.Intn(2) == 0, noDups: false})
 			}
 			if tv == nil {
 				continue
@@ -248,7 +248,7 @@ func genC09(e *emitter, tier string) {
 			if isApply {
 				v, tv = genConfig(e, multi, ver, st, nil, true)
 			} else {
-				v, tv = genUpdateObject(e, multi, ver, st, histOpts{degenerate: true, noDups: true})
+				v, tv = genUpdateObject(e, multi, ver, st, histOpts{degenerate: true, noDups: false})
 			}
 			if tv == nil {
 				continue
